@@ -2654,3 +2654,80 @@ func (c *Ctx) edgeCache(rule string, funcs []*FuncInfo) (n, nviol int) {
 	}
 	return
 }
+
+// ---------------------------------------------------------------------------------------------
+// ENDS (C03/C17): a branch whose far end changes must be re-targeted whatever its orientation:
+// `if e.Left() == old { e.setLeft(new) } else { e.setRight(new) }`. When one branch of such an
+// orientation test re-targets one end of e, the other branch re-targets the other end of the same
+// e to the same node; otherwise the edit is only right for one rooting.
+func (c *Ctx) endsBothOrientations(rule string, funcs []*FuncInfo, clause string) (n, nviol int) {
+	for _, fi := range funcs {
+		if fi.Decl.Body == nil {
+			continue
+		}
+		info := fi.Pkg.TypesInfo
+		o := c.localExpansions(info, fi.Decl.Body)
+		k := 0
+		type set struct {
+			edge, end, node string
+			pos             token.Pos
+		}
+		setters := func(b ast.Node) []set {
+			var out []set
+			for _, call := range callsIn(b, false) {
+				g := calleeOf(info, call)
+				if g == nil || len(call.Args) != 1 {
+					continue
+				}
+				end := ""
+				switch {
+				case isRepoFunc(g, "tree", "Edge", "setLeft"):
+					end = "left"
+				case isRepoFunc(g, "tree", "Edge", "setRight"):
+					end = "right"
+				default:
+					continue
+				}
+				if sel, ok := unparen(call.Fun).(*ast.SelectorExpr); ok {
+					out = append(out, set{c.canon(info, sel.X, o), end, c.canon(info, call.Args[0], o), call.Pos()})
+				}
+			}
+			return out
+		}
+		ast.Inspect(fi.Decl.Body, func(m ast.Node) bool {
+			is, ok := m.(*ast.IfStmt)
+			if !ok || is.Else == nil {
+				return true
+			}
+			ck := c.canon(info, is.Cond, o)
+			a, b := setters(is.Body), setters(is.Else)
+			for _, s := range a {
+				// the test is about the orientation of the same branch
+				if !strings.Contains(ck, s.edge+".left") && !strings.Contains(ck, s.edge+".right") {
+					continue
+				}
+				k++
+				n++
+				key := fmt.Sprintf("%s/%s→%s#%d", funcName(fi.Obj), s.edge, s.node, k)
+				other := "right"
+				if s.end == "right" {
+					other = "left"
+				}
+				found := false
+				for _, t := range b {
+					if t.edge == s.edge && t.end == other && t.node == s.node {
+						found = true
+					}
+				}
+				if found {
+					c.OK(rule, key, s.pos, "the other orientation re-targets the other end of the same branch to the same node")
+				} else {
+					nviol++
+					c.Violation(rule, key, is.Pos(), fmt.Sprintf("under %s the %s end of %s is re-targeted to %s, but the other branch of the test does not re-target its %s end to %s: when the branch points the other way it keeps its old end and no longer joins the nodes it is stored between", ck, s.end, s.edge, s.node, other, s.node)).Clause = clause
+				}
+			}
+			return true
+		})
+	}
+	return
+}
